@@ -137,7 +137,7 @@ static void fatal(void* ctx, const char* what)
 
 static int run(struct ex_state* ex, void* user)
 {
-        struct vg_config cfg = { ex_choose, fatal, ex, *(int*)user, 100000 };
+        struct vg_config cfg = { ex_choose, fatal, ex, *(int*)user, 100000, ((int*)user)[2] };
         int i;
         omp_set_num_threads(((int*)user)[1]);
         vg_begin(&cfg);
@@ -170,10 +170,10 @@ int main(void)
                 for(int N = 1; N <= 3; N++){
                         for(int nested = 0; nested < 2; nested++){
                                 struct ex_state ex;
-                                int user[2] = {nested, N};
+                                int user[3] = {nested, N, (N + nested) & 1};
                                 memset(&ex, 0, sizeof ex);
                                 ex.cost_mode = EX_COST_PREEMPTION;
-                                ex.bound = (toy == 0) ? 2 : 1;
+                                ex.bound = (toy == 0 && N < 3) ? 2 : 1;
                                 ex.nshards = 1;
                                 ex.run = run;
                                 ex.user = user;
